@@ -45,8 +45,7 @@ CHint == CHintSeq[chid]
 CActive == cph = 2
 
 \* every seventh object of the base universe (rotating with the hint), all hostile neighbours
-RECURSIVE Pickn(_, _, _)
-Pickn(s, i, k) == IF i > Len(s) THEN <<>> ELSE <<s[i]>> \o Pickn(s, i + k, k)
+Pickn(s, i, k) == IF i > Len(s) THEN <<>> ELSE [n \in 1 .. ((Len(s) - i) \div k + 1) |-> s[i + (n - 1) * k]]
 RowObjs == XSeq \o Pickn(OSeq, 1 + (chid % 7), 7)
 
 \* C03 (design): a rejection is always explained - the finder neither reports "no cause" nor fails
